@@ -24,7 +24,7 @@ type textRec struct {
 	Limit int64    `json:"limit"`
 	Chain []string `json:"chain"`
 	CS    string   `json:"cs"`
-	Note  string   `json:"note,omitempty"`
+	Note  string   `json:"note"`
 }
 
 var textBodies = map[string]string{
@@ -183,6 +183,42 @@ func texttraceMain(args []string) int {
 			copy(in[p:], grp)
 			for _, lim := range []int64{0, int64(p + len(grp)), int64(p + len(grp) + 50), int64(p + 1)} {
 				emit(in, lim, "long-late-nonascii")
+			}
+		}
+	}
+	// (1d) UTF-16 / UTF-32 text WITHOUT a byte-order mark: full of 0x00, i.e. binary by the byte-class rule
+	for _, word := range []string{"hello world, this is text", "abcd", "a", "line one\nline two\n"} {
+		for _, enc := range []string{"16le", "16be", "32le", "32be"} {
+			var in []byte
+			for _, c := range []byte(word) {
+				switch enc {
+				case "16le":
+					in = append(in, c, 0)
+				case "16be":
+					in = append(in, 0, c)
+				case "32le":
+					in = append(in, c, 0, 0, 0)
+				case "32be":
+					in = append(in, 0, 0, 0, c)
+				}
+			}
+			binCases++
+			for _, lim := range []int64{0, 3072, int64(len(in)), int64(len(in) - 1), 8, 9, 16} {
+				if lim >= 0 {
+					emit(in, lim, "utf"+enc+"-without-mark")
+				}
+			}
+		}
+	}
+	// (1e) the same late bytes behind an XML / HTML prologue without a declaration (sniffing serves these leaves too)
+	for _, pro := range []string{`<?xml version="1.0"?><doc>`, `<html><body><p>`} {
+		for _, grp := range [][]byte{{0xE9}, {0x85}, {0xC3, 0xA9}, {0xFF}} {
+			for _, p := range []int{1023, 1024, 1025, 2000, 4096} {
+				in := append([]byte(pro), long...)
+				copy(in[p:], grp)
+				for _, lim := range []int64{0, 3072, int64(p + len(grp) + 20)} {
+					emit(in, lim, "undeclared-markup")
+				}
 			}
 		}
 	}
